@@ -515,6 +515,17 @@ impl FilterPredicate {
             return None;
         }
 
+        // `filter_bits` only handles predicates that actually filter: a predicate
+        // selecting no or all rows is answered directly
+        match self.strategy {
+            IterationStrategy::None => return None,
+            IterationStrategy::All => {
+                let nulls = nulls.slice(0, self.count);
+                return (nulls.null_count() > 0).then_some(nulls);
+            }
+            _ => {}
+        }
+
         let nulls = filter_bits(nulls.inner(), self);
         // The filtered `nulls` has a length of `self.count` bits and therefore
         // the null count is this minus the number of valid bits
@@ -1094,6 +1105,28 @@ mod tests {
     use rand::distr::{Alphanumeric, StandardUniform};
     use rand::prelude::*;
     use rand::rng;
+
+    #[test]
+    fn test_filter_nulls_all_and_none_selected() {
+        let nulls = NullBuffer::from(vec![true, false, true]);
+
+        // all rows selected
+        let all = FilterBuilder::new(&BooleanArray::from(vec![true, true, true])).build();
+        assert_eq!(all.filter_nulls(Some(&nulls)), Some(nulls.clone()));
+        let all = FilterBuilder::new(&BooleanArray::from(vec![true])).build();
+        assert_eq!(all.filter_nulls(Some(&nulls)), None);
+
+        // no row selected
+        let none = FilterBuilder::new(&BooleanArray::from(vec![false, false, false])).build();
+        assert_eq!(none.filter_nulls(Some(&nulls)), None);
+
+        // a predicate that filters
+        let some = FilterBuilder::new(&BooleanArray::from(vec![false, true, true])).build();
+        assert_eq!(
+            some.filter_nulls(Some(&nulls)),
+            Some(NullBuffer::from(vec![false, true]))
+        );
+    }
 
     macro_rules! def_temporal_test {
         ($test:ident, $array_type: ident, $data: expr) => {
